@@ -132,8 +132,11 @@ def check_table(ctx, case, thorough):
         keep = [(p.Mach, p.CD) for p in dm.drag_table]
         for p in dm.drag_table:
             p.CD *= 1.0 + 0.3 * math.sin(7 * p.Mach + 1.0) ** 2
-        tc._init_trajectory(shot)  # pylint: disable=protected-access
-        tc.drag_by_mach(1.1)
+        try:
+            tc._init_trajectory(shot)  # pylint: disable=protected-access
+            tc.drag_by_mach(1.1)
+        except ZeroDivisionError:
+            pass        # judged below, at the set-up proper
         for p, (m, c) in zip(dm.drag_table, keep):
             p.Mach, p.CD = m, c
         dm.BC = case["bc"]
@@ -158,7 +161,17 @@ def check_table(ctx, case, thorough):
             tc.drag_by_mach(q)
             q0 = q
         ctx.count("tables_after_another_table_on_the_same_calculator")
-    tc._init_trajectory(shot)  # the call the solver itself makes  pylint: disable=protected-access
+    try:
+        tc._init_trajectory(shot)  # the call the solver itself makes  pylint: disable=protected-access
+    except ZeroDivisionError as exc:
+        gap = min((b[0] - a[0]) / max(abs(b[0]), 1e-300) for a, b in zip(tab, tab[1:]))
+        ctx.case(case, nontrivial=True, sample=False)
+        # listed finding, identified by its mechanism: the curve fit divides by a determinant that cancels to zero when two
+        # neighbouring Mach numbers are (almost) equal; any other division by zero during set-up is a violation
+        ctx.violation("C09.near-coincident-nodes" if gap < 1e-9 else "set-up.division-by-zero",
+                      f"setting the solver up for a strictly ascending table raised ZeroDivisionError ({exc}); smallest relative gap between "
+                      f"neighbouring Mach numbers {gap:.3e}", case, smallest_relative_gap=gap)
+        return
     bc = case["bc"]
     ctx.count("tables_checked")
     ctx.count("shipped_tables_checked" if shipped else "custom_tables_checked")
